@@ -105,16 +105,47 @@ def run(ctx, rep):
     rep.require("C11.b", "content-reuse-site", len(clone_from) == 1, where=PR.loc(), what="Parent::process copies the parent's content into the node at one site")
     if len(clone_from) == 1:
         ok = False
+        QUANT = r"Iterator(>)?::(all|any)$"
+
+        def closure_polarity(path):
+            """+1 if the closure returns has_data(..), -1 if it returns !has_data(..), else 0"""
+            for cc in prog.closures_of(PR, recursive=False):
+                if cc.path != path:
+                    continue
+                e = flow.place_expr(cc, [0])
+                neg = False
+                while e[0] == "un" and e[1] == "Not":
+                    neg = not neg
+                    e = e[2]
+                if e[0] == "call" and re.search(r"has_data$", e[1]):
+                    return -1 if neg else 1
+            return 0
+
+        def quantifier(e):
+            """(call expr, negated) if e is [!]*iter.all/any(closure)"""
+            neg = False
+            while e[0] == "un" and e[1] == "Not":
+                neg = not neg
+                e = e[2]
+            if e[0] == "call" and re.search(QUANT, e[1]):
+                return e, neg
+            return None, False
+
+        guard_calls = []
         for (sw, succ) in C.transitive_control_deps(PR, clone_from[0]):
-            e = flow.expr_of(PR, PR.term(sw)["discr"])
-            if e[0] == "call" and re.search(r"Iterator::all$|Iterator>::all$", e[1]):
-                taken = [v for v, x in PR.term(sw)["targets"] if x == succ]
-                took_true = not taken or taken[0] != "0"
-                # the closure passed to all() calls has_data
-                cl = [cc for cc in prog.closures_of(PR, recursive=False) if any("callee" in t and re.search(r"has_data$", callee(t)) for _, t in cc.calls())]
-                if took_true and cl:
-                    ok = True
-        rep.check("C11.b", "reuse-guarded", ok, where=where(PR, clone_from[0]), what="the parent's content is reused only if every chunk id is in the index (all(has_data))" if ok else "a file's content is taken from the parent WITHOUT checking that all its chunks are still indexed")
+            q, neg = quantifier(flow.expr_of(PR, PR.term(sw)["discr"]))
+            if q is None:
+                continue
+            taken = [v for v, x in PR.term(sw)["targets"] if x == succ]
+            cond_true = (not taken or taken[0] != "0") != neg       # truth value of the quantifier call on this edge
+            cl = q[2][1] if len(q[2]) > 1 else None
+            pol = closure_polarity(cl[1][1]) if cl and cl[0] == "agg" and cl[1][0] == "closure" else 0
+            is_all = q[1].endswith("all")
+            # every id indexed  <=>  all(has_data) is true  <=>  any(!has_data) is false
+            if (is_all and pol == 1 and cond_true) or (not is_all and pol == -1 and not cond_true):
+                ok = True
+                guard_calls.append(q)
+        rep.check("C11.b", "reuse-guarded", ok, where=where(PR, clone_from[0]), what="the parent's content is reused only if every chunk id is in the index (all(has_data) / !any(!has_data))" if ok else "a file's content is taken from the parent WITHOUT checking that all its chunks are still indexed")
         # the chunks tested are the PARENT node's content - the very list that is copied
         t_cf = PR.term(clone_from[0])
 
@@ -124,8 +155,7 @@ def run(ctx, rep):
                 e = e[2][0]
             return e
         copied = recv_root(flow.expr_of(PR, t_cf["args"][1]))
-        alls = [(bb, t) for bb, t in PR.calls() if "callee" in t and re.search(r"Iterator::all$|Iterator>::all$", callee(t) + " " + callee_decl(t))]
-        oks = any(recv_root(flow.expr_of(PR, t["args"][0])) == copied and copied[0] in ("proj", "path") and "content" in copied[2] for bb, t in alls)
+        oks = any(recv_root(q[2][0]) == copied and copied[0] in ("proj", "path") and "content" in copied[2] for q in guard_calls)
         rep.check("C11.b", "tested-list-is-copied-list", oks, where=where(PR, clone_from[0]), what="the chunk ids tested against the index are the parent node's content that is copied into the new node" if oks else
                   "the index test runs over a different list than the parent content that is reused (e.g. the still-empty content of the new node): the test is vacuous")
         # the other edge yields NotFound
